@@ -163,6 +163,7 @@ type runner struct {
 	logPos       int
 	jobPos       int
 	retOut       int // JobRet items emitted
+	placed       int // job starts reported in items so far
 	stopObs      []bool
 	panics       []string
 	actsStarted  int
@@ -414,6 +415,7 @@ func (r *runner) emit(kind, ev, out string, jobs []jobStart, tm *int64) {
 		}
 		js[i] = fmt.Sprintf("(%s, %s)", hx.CoqZ(id), hx.CoqZ(j.at))
 	}
+	r.placed += len(jobs)
 	r.items = append(r.items, fmt.Sprintf("(%s, %s, %s, %s)", ev, out, hx.CoqList(js), optZ(tm)))
 	r.kinds = append(r.kinds, kind)
 }
@@ -665,7 +667,11 @@ func (r *runner) emitReturns() {
 	r.jmu.Lock()
 	ret := r.returned
 	r.jmu.Unlock()
-	for r.retOut < ret {
+	// a return is reported only after the item that reports the job's start: with two wake-ups in
+	// one batch of log records (a timer armed with a non-positive duration fires at once - e.g.
+	// after a lagging tick) the jobs of the second one have returned by now as well, but their
+	// returns belong after the second Wake item
+	for r.retOut < ret && r.retOut < r.placed {
 		r.emit("JobRet", "JobRet", "ONone", nil, r.lastTm)
 		r.retOut++
 	}
@@ -915,6 +921,18 @@ func (r *runner) earlyReturn(o op, a op, snap []cron.Entry) {
 	r.pending = append(r.pending, pendingItem{recIdx: first, after: after, kind: kind, ev: ev, out: out, tm: r.lastTm})
 }
 
+// handedOut: has Schedule returned this id?
+func (r *runner) handedOut(id int64) bool {
+	r.jmu.Lock()
+	defer r.jmu.Unlock()
+	for _, tk := range r.tokens {
+		if tk.id == id && id >= 1 {
+			return true
+		}
+	}
+	return false
+}
+
 // stopSeen: as many "stop" records as Stop calls made on a running Cron.
 func (r *runner) stopSeen() bool {
 	return r.log.count("stop") >= r.nStopRunning
@@ -931,7 +949,14 @@ func (r *runner) do(o op) {
 		return
 	}
 	switch o.Op {
-	case "sched", "remove":
+	case "remove":
+		// only ids that Schedule has handed out are removed (Model.v, RemoveRet): when a recorded
+		// script is replayed and a race (Start|Stop, select order) goes the other way than at
+		// generation time, a later Schedule may not have happened
+		if r.handedOut(o.ID) {
+			r.doAPI(o)
+		}
+	case "sched":
 		r.doAPI(o)
 	case "stop":
 		if r.running {
@@ -1169,6 +1194,9 @@ func (r *runner) race(o op) {
 		return
 	}
 	a := *o.API
+	if a.Op == "remove" && !r.handedOut(a.ID) {
+		return
+	}
 	held := false // the scheduler goroutine is held (NewTimer gate / inside a logger call)
 	switch o.Mode {
 	case "gated":
